@@ -23,6 +23,7 @@ namespace
   typedef Shape::Hypercube<2> Q; typedef Shape::Simplex<2> T; typedef Shape::Hypercube<3> H; typedef Shape::Simplex<3> X;
   const PairEntry pairs[] = {
     {&Monitors<DLagrange1, Q>::run, true}, {&Monitors<DLagrange1, T>::run, true}, {&Monitors<DLagrange1, H>::run, true}, {&Monitors<DLagrange1, X>::run, true},
-    {&Monitors<DLagrange2, Q>::run, true}, {&Monitors<DLagrange2, T>::run, true}, {&Monitors<DLagrange2, H>::run, false}, {&Monitors<DLagrange2, X>::run, true}};
+    {&Monitors<DLagrange2, Q>::run, true}, {&Monitors<DLagrange2, T>::run, true}, {&Monitors<DLagrange2, H>::run, true}, {&Monitors<DLagrange2, X>::run, true}};
 }
+static RegO3d o1("L2:H", &Monitors<DLagrange2, H>::run_o3d), o2("L2:X", &Monitors<DLagrange2, X>::run_o3d);
 VH_FAMILY(lag12) { run_pair(c, pairs, sizeof(pairs) / sizeof(pairs[0])); }
